@@ -24,7 +24,7 @@ from collections import Counter
 import numpy as np
 
 sys.path.insert(0, os.path.dirname(os.path.abspath(__file__)))
-from _util import time_limit  # noqa
+from _util import time_limit, call_getters  # noqa
 
 MULT = {"P": 1, "A": 2, "C": 2, "I": 2, "R": 3, "F": 4}
 
@@ -310,7 +310,11 @@ def analyze(case, want_families):
 
     # the ORDER in which a caller asks is not prescribed: one case in three asks for the per-atom data of the original
     # system (and the free-parameter flag) before anything else, one in three asks for everything in reverse order
-    order = case["call_order"] if case.get("call_order") is not None else case["id"] % 3
+    # ... and one in four first calls a pseudo-random selection of ALL public argument-less getters of the analyzer, shuffled
+    # (a replay hands the recorded list back)
+    order = case["call_order"] if case.get("call_order") is not None else case["id"] % 4
+    if order == 3 or isinstance(order, list):
+        order = call_getters(a, seed=case["id"], names=order if isinstance(order, list) else None)
     res["call_order"] = order
     got = {}
     getters = [
